@@ -147,9 +147,19 @@ def run(ctx):
         jobs.append(lawtab(11, 1, 1, "rev_str_cr", n_rsc))
         for lo, hi in _chunks(nep, 8):
             jobs.append(lawtab(4, lo, hi, "ep_%d" % lo, hi - lo + 1))
-    res = rt.parallel([lambda: goharness.ext_test_build(ctx, PKG)] + jobs, par + 1)
+    # history dimension (spec/RevEpochHistory.tla): every history of 1..K decodes into ONE reused destination;
+    # TLC checks the invariants on every history and exports histories + per-text denotation
+    histlen = ctx.pick(2, 3)
+    hist_table = os.path.join(tabdir, "t_history.json")
+    hjob = lambda: rt.table(ctx, "RevEpochHistory", "RevEpochHistory.cfg", hist_table, {"VERIF_HISTLEN": histlen},
+                            name="history", timeout=TLC_TIMEOUT)
+    res = rt.parallel([lambda: goharness.ext_test_build(ctx, PKG)] + jobs + [hjob], par + 1)
     binary = res[0]
-    mcs = res[1:]
+    mcs = res[1:-1]
+    hmc = res[-1]
+    want_hist = sum(16 ** k for k in range(histlen + 1))
+    if hmc.distinct != want_hist:
+        raise InfraError("history spec: TLC explored %d states, expected %d" % (hmc.distinct, want_hist))
     for m, want_states in zip(mcs, expected_states):
         if m.distinct != want_states:        # vacuity guard: one state per input, invariants evaluated on each
             raise InfraError("laws: TLC explored %d inputs in %s, expected %d" % (m.distinct, m.dir, want_states))
@@ -216,6 +226,20 @@ def run(ctx):
     ctx.log("laws on real outputs: %d revisions, %d strings, %d epochs (%d valid), %d CanRead pairs, %d documents: %d violations %s"
             % (lst["revisions"], lst["strings"], lst["epochs"], lst["valid_epochs"], lst["canread_pairs"], lst["documents"],
                lst["law_violations"], lst["by_class"]))
+
+    # ---- 4b. history dimension on the real code: a reused destination, copies kept after each decode
+    hrows = rt.drive(ctx, binary, "TestVerifC35History", os.path.join(outdir, "history.ndjson"),
+                     env={"VERIF_TABLES": hist_table, "VERIF_MAX_MISMATCH": 60}, timeout=1500)
+    hst = rt.stats_of(hrows)
+    for r in hrows:
+        if r.get("kind") == "history":
+            violations.append(Violation(
+                key=r["key"],
+                desc="decoding %s into one reused snap.Epoch: the kept value is %s, the text denotes %s"
+                     % (r["call"], r["got"], r["exp"]), replay=r))
+    ctx.log("history: %d histories (<= %d decodes into one destination, json/yaml in every assignment) replayed, %d copies judged, "
+            "%d differences %s; TLC: %d history states, 3 invariants"
+            % (hst["histories_replayed"], histlen, hst["copies_judged"], hst["mismatches"], hst["by_class"], hmc.distinct))
 
     # ---- 5. I->T: seeded random inputs beyond the bound
     obsdir = ctx.subdir("obs")
@@ -292,7 +316,10 @@ def run(ctx):
 
     law_evals = lst["revisions"] * 5 + lst["strings"] + lst["epochs"] + lst["valid_epochs"] * 4 + lst["canread_pairs"] + lst["documents"]
     cov = {
-        "evaluations": tst["evaluations"] + law_evals + checked,
+        "evaluations": tst["evaluations"] + law_evals + checked + hst["evaluations"],
+        "history": {"max_decodes_into_one_destination": histlen, "tlc_states": hmc.distinct,
+                    "histories_replayed": hst["histories_replayed"], "copies_judged": hst["copies_judged"],
+                    "differences": hst["mismatches"]},
         "distinct_nontrivial": tst["distinct"],
         "rule": "every real result (String/ParseRevision/JSON/YAML of snap.Revision; Validate/String/MarshalJSON/"
                 "UnmarshalJSON/UnmarshalYAML/CanRead of snap.Epoch) equals the RevEpoch.tla reference on the whole "
